@@ -312,6 +312,7 @@ func (ex *Executor) dispatchCall(st *State, fr *Frame, cc *ssa.CallCommon, fv Va
 	if fn == nil {
 		// unknown function value: typed function contracts (functype specs)
 		if spec := ex.funcTypeSpec(cc.Value.Type()); spec != nil {
+			ex.Assumed["assumed contract of the function type "+strings.TrimPrefix(spec.Key, "functype ")+" (every value of that type is taken to satisfy it)"] = true
 			res, ok := ex.applyContract(st, fr, spec, nil, cc.Signature(), args, ins, name, ord)
 			if !ok {
 				return false
@@ -821,6 +822,11 @@ func (ex *Executor) native(st *State, fr *Frame, fn *ssa.Function, dname string,
 				ts = append(ts, ev.T)
 			}
 			t := App(fmt.Sprintf("%s.%d", sanitize(dname), len(ts)-1), SInt, ts...)
+			if dname == "fmt.Sprintf" {
+				if ct := ex.sprintfConcat(args[0].T, ts[1:]); ct != nil {
+					t = ct
+				}
+			}
 			if dname == "fmt.Errorf" {
 				st.assume(Neq(t, Num(0)))
 				return []Val{{T: t, Ty: fn.Signature.Results().At(0).Type()}}, true, true
@@ -837,6 +843,51 @@ func (ex *Executor) native(st *State, fr *Frame, fn *ssa.Function, dname string,
 		return ex.nativeSortSearch(st, fr, fn, args, ins, resVal, aname, aord)
 	}
 	return nil, false, true
+}
+
+// sprintfConcat: for a literal format made of plain text and the verbs %s and %d only, Sprintf is the concatenation of
+// the text pieces and the renderings of its arguments: a string argument renders as itself, anything else as an
+// uninterpreted function of the value (fmt.s / fmt.d). nil when the format is not of that shape.
+func (ex *Executor) sprintfConcat(format *Term, argv []*Term) *Term {
+	f, ok := litOf(format)
+	if !ok {
+		return nil
+	}
+	var parts []*Term
+	k := 0
+	for i := 0; i < len(f); {
+		j := strings.IndexByte(f[i:], '%')
+		if j < 0 {
+			parts = append(parts, strLit(f[i:]))
+			break
+		}
+		if j > 0 {
+			parts = append(parts, strLit(f[i:i+j]))
+		}
+		i += j
+		if i+1 >= len(f) || k >= len(argv) {
+			return nil
+		}
+		a := argv[k]
+		k++
+		switch f[i+1] {
+		case 's':
+			if info, ok := ex.ifaceInfo[a.Key()]; ok && info.ty != nil && isString(info.ty) && info.payload.T != nil {
+				parts = append(parts, info.payload.T)
+			} else {
+				parts = append(parts, App("fmt.s", SInt, a))
+			}
+		case 'd':
+			parts = append(parts, App("fmt.d", SInt, a))
+		default:
+			return nil
+		}
+		i += 2
+	}
+	if k != len(argv) {
+		return nil
+	}
+	return StrCat(parts...)
 }
 
 // sort.Search(n, f): result r with 0 <= r <= n and (r < n ==> f(r)); the closure is evaluated symbolically at r.
@@ -1020,6 +1071,10 @@ func (ex *Executor) callWrites(cc *ssa.CallCommon, w map[string]bool) {
 		if mc, ok := cc.Value.(*ssa.MakeClosure); ok {
 			sc = mc.Fn.(*ssa.Function)
 		} else {
+			if spec := ex.funcTypeSpec(cc.Value.Type()); spec != nil && spec.HasMod && len(spec.Modifies) == 0 {
+				// a function value of a named function type whose (assumed, listed) contract says it modifies nothing
+				return
+			}
 			// unknown function value: it may write through the pointers it is given (one level, as havocPointees)
 			pointeeWrites(cc, w)
 			return
